@@ -9,6 +9,13 @@ queue-full drops.  Binding (mode A): every behaviour of the generator instances 
 datagram frames received, in order, with sender id, frame id and frame class (the harness derives the
 class by comparing kind, ECN byte, segment size and contents with what it put into the frame).
 
+The `handover` family holds the window between the cancellation of the active connection and its unregistration
+open on the real code (the actor cannot finish its final flush while its client does not read) and sends
+into it: the datagram must be accepted by the still-active connection, not by the displaced one.
+Seeded change (recorded 2026-09-22): seeded/_incoming/C04/patch2.diff (`ClientState::receiver()` queues on the
+most recent inactive connection once the active one is shutting down) -> VIOLATION kind=wrong_receiver
+(bin/seedtest); seeded/_incoming/C04/patch.diff (burst reversed) stays caught.
+
 Mode B: seeded random workloads on a multi-thread runtime, event logs validated against
 Trace_RelayServer.tla (every delivered datagram must be explained by a push of the attributed sender to
 the receiver's id that the receiver's active connection accepted, at most once, in per-sender order).
@@ -87,6 +94,12 @@ def families(ctx):
                             Classes='{"normal", "batch", "ecn", "maxm1", "bmaxm1"}', Ops='{"connect", "frame"}')),
         ("full", 1, dict(base, PktCap=1, MsgCap=1, MaxFrames=ctx.pick(3, 4), MaxSteps=ctx.pick(7, 8), Classes='{"normal"}',
                          FrameDsts='{"B"}', Ops='{"connect", "frame", "stall"}')),
+        # hand-over window (instance fwd3: a1 displaced by a2, peer b1): a connection whose client does not read
+        # cannot finish the final flush after Clients::disconnect cancelled it, so it stays the registered active
+        # connection; what peers send in that window is accepted by *it* (and lost with it), never by the
+        # displaced a1, which is promoted (Healthy) only by the unregister after the client reads again
+        ("handover", 2, dict(base, PktCap=2, MsgCap=2, MaxFrames=ctx.pick(2, 3), MaxSteps=ctx.pick(7, 8), Classes='{"normal"}',
+                             FrameDsts='{"A"}', Ops='{"connect", "frame", "stall", "disconnect"}')),
     ]
     return fam
 
@@ -114,11 +127,16 @@ def run(ctx):
             require_actions=["Register", "ClientFrame", "Close", "TakePacket", "Unregister", "NotifyGone"])
     # 2. behaviours -> implementation
     for name, cap, consts in families(ctx):
-        scen, seen_ops, res = rc.generate(ctx, "Gen_RelayServer_fwd.cfg", consts)
+        scen, seen_ops, res = rc.generate(ctx, "Gen_RelayServer_fwd3.cfg" if name == "handover" else "Gen_RelayServer_fwd.cfg",
+                                          consts)
         if "frame" not in seen_ops:
             raise rc.ToolError("vacuity: generator instance %s has no client frame" % name)
         if name == "full" and not any(len(g["outcomes"]) >= 1 and any(s["op"] == "unstall" for s in g["steps"]) for g in scen):
             raise rc.ToolError("vacuity: no stall/unstall sequence generated")
+        if name == "handover":
+            window = [("stall", "a2"), ("disconnect", "a2"), ("frame", "b1"), ("unstall", "a2")]
+            if not any([(k[0], k[1]) for k in g["key"]][3:7] == window for g in scen):
+                raise rc.ToolError("vacuity: the hand-over window (stall a2, disconnect a2, frame b1 -> A, unstall a2) was not generated")
         for g in scen:
             g["cap"] = cap
         obs = rc.execute(ctx, "c04-%s" % name, scen, CONNS, cap)
@@ -137,8 +155,9 @@ def run(ctx):
         raise rc.ToolError("vacuity: no datagram was delivered in the random runs")
     if not ctx.quick and res.ok:
         rc.trace_selftest(ctx, "C04", evs)
-    ctx.cov["rule"] = ("every maximal call sequence of the three generator instances (order: connects/frames/closes; classes: "
-                       "all forwardable datagram classes; full: stalled receiver with queue capacity 1) up to MaxSteps "
+    ctx.cov["rule"] = ("every maximal call sequence of the four generator instances (order: connects/frames/closes; classes: "
+                       "all forwardable datagram classes; full: stalled receiver with queue capacity 1; handover: duplicate "
+                       "connection, active one cancelled by Clients::disconnect while its client does not read) up to MaxSteps "
                        "(exhaustive); non-trivial when it contains a frame, a close or a disconnect")
     ctx.cov["exhaustive"] = True
     ctx.assume("quiescence: after each call the actors are polled until no stream half is touched for 4 scheduler rounds")
